@@ -113,6 +113,8 @@ def run_case(idx, rng, P, rep, feats=None, prop='C03'):
     else:
         feats = feats - {'twins'}
     r = dispatch.Run(param, rng, feats, idx=idx, level=level)
+    if r.shared_pobj:
+        rep.count('cases_with_shared_parameter_object')
     r.run()
     for k, v in r.stats.items():
         if k.startswith('max_'):
